@@ -8,6 +8,12 @@ Case kinds (first token `<mode>.<fault>`):
             only); half of the cases with chunk sizes 3..16 so that every file is spread over several chunks
   e2e.*     real SyncStreamingParts <-> real SyncPart over an in-process gRPC pipe with one in-flight fault
   rde.*     a file reader of the sender fails mid-part (known finding F17B)
+  trh.*     like trc.*, the part being replayed from the liaison's real hand-off queue (enqueueForNode ->
+            readPartFromHandoff) instead of shipped by the syncer
+  dqs.*     real stream DistributedAnalyze + Execute (distributedLimit over distributedPlan) against data nodes that
+            evaluate the pushed-down request faithfully; oracle: the standalone window of the union
+  syn.*     the stream / trace syncer's real delivery round (executeSyncWithRetry / executeSyncOperation with the
+            real FailedPartsHandler) for one flushed part against scripted data nodes; compared with the queue model
   lwr.*     real liaison Write handlers (traceService / streamService / measureService .Write) with an in-memory
             stream, a capturing publisher and a modular node registry; requests switch resource mid-stream with
             metadata present / absent / repeated (oracle only)
@@ -255,6 +261,13 @@ def snd_cases(rng, n):
     return out
 
 
+def dqs_case(rng):
+    """distributed stream query: limit unset/1/5/20/50, offset 0/1/5/30, time order, 1-4 data nodes"""
+    return "dqs.%s %d %d %d %d %d" % (rng.choice(["none", "asc", "desc"]), rng.choice([1, 2, 2, 3, 4]),
+                                      rng.choice([0, 1, 7, 19, 20, 21, 26, 60, 100]), rng.choice([0, 0, 1, 5, 20, 50]),
+                                      rng.choice([0, 0, 1, 5, 30]), rng.randrange(1, 1000))
+
+
 def lwr_case(rng, engine=None):
     """one liaison Write stream that switches between resources, with and without metadata on the requests"""
     engine = engine or rng.choice(["trc", "trc", "str", "msr"])
@@ -324,11 +337,27 @@ class C17(vlib.Spec):
             out.append(real_case(rng, "str"))
         for _ in range(min(n // 75, 2000)):
             out.append(real_case(rng, "trc"))
+        for _ in range(min(n // 150, 1000)):
+            out.append(real_case(rng, "trh"))
+        for order in ("none", "asc", "desc"):
+            for lim, off in ((0, 5), (0, 0), (5, 1), (50, 30)):
+                out.append("dqs.%s %d 60 %d %d %d" % (order, rng.choice([2, 3]), lim, off, rng.randrange(1, 1000)))
+        for _ in range(n // 20):
+            out.append(dqs_case(rng))
         for _ in range(min(n // 60, 2500)):
             out.append(e2e_case(rng))
         for _ in range(n // 40):
             out.append(rde_case(rng))
         out.extend(snd_cases(rng, n))
+        # the stream and trace syncers' own copies of the failure / retry glue (retry back-off is real: 1 s, 2 s, 4 s)
+        for eng in ("str", "trc"):
+            sd = lambda: "%d %d %d" % (rng.randrange(1, 10**6), rng.randrange(1, 3), rng.randrange(1, 6))
+            out.append("syn.%s-ok %d %s 0 %s" % (eng, 2, "S,S", sd()))
+            out.append("syn.%s-retry1 2 %s 0 %s" % (eng, rng.choice(["S,ES", "FS,S", "ES,S"]), sd()))
+            out.append("syn.%s-preserved %s 0 %s" % (eng, rng.choice(["2 S,E", "1 E", "2 EF,S"]), sd()))
+            if n > 50000:
+                out.append("syn.%s-lost 1 %s 1 %s" % (eng, rng.choice(["E", "F"]), sd()))
+                out.append("syn.%s-retry2 2 %s 0 %s" % (eng, rng.choice(["EES,S", "S,EFS"]), sd()))
         for eng in ("trc", "str", "msr"):
             out.append("lwr.%s 2 3 0M1,0-2,1M1,1-3,0M2,0-4" % eng)
         for _ in range(n // 15):
@@ -354,7 +383,9 @@ class C17(vlib.Spec):
             return self.oracle_chunks(f, g)
         if mode == "rec":
             return self.oracle_rec(f, kind, g)
-        if mode in ("msr", "str", "trc"):
+        if mode == "dqs":
+            return self.oracle_dqs(f, kind, g)
+        if mode in ("msr", "str", "trc", "trh"):
             return self.oracle_msr(f, mode + "." + kind, g, kind)
         if mode == "e2e":
             return self.oracle_e2e(f, kind, g)
@@ -362,8 +393,27 @@ class C17(vlib.Spec):
             return self.oracle_rde(f, kind, g)
         if mode == "snd":
             return self.oracle_snd(f, kind, g)
+        if mode == "syn":
+            return self.oracle_snd(f + ["1"], "syn." + kind, g)
         if mode == "lwr":
             return self.oracle_lwr(f, kind, g)
+        return None
+
+    def oracle_dqs(self, f, kind, g):
+        rows, limit, offset = int(f[2]), int(f[3]), int(f[4])
+        kv = dict(t.split("=", 1) for t in g.split() if "=" in t)
+        if "got" not in kv:
+            return ("violation", "unexpected driver output: " + g[:200])
+        got = [] if kv["got"] == "-" else [int(x) for x in kv["got"].split(",")]
+        # what a standalone server returns: the window of the time-ordered union (default limit 20)
+        order = list(range(rows))
+        if kind == "desc":
+            order.reverse()
+        want = order[offset:offset + (limit or 20)]
+        if got != want:
+            return ("violation", "[dqs.%s] limit=%s offset=%d over %d rows on %s nodes: cluster returns %d rows %s…, standalone returns %d rows %s… "
+                                 "(request pushed to the data nodes: limit+offset=%s)"
+                                 % (kind, limit or "unset", offset, rows, f[1], len(got), got[:6], len(want), want[:6], kv.get("pushed")))
         return None
 
     def oracle_lwr(self, f, kind, g):
@@ -619,7 +669,7 @@ class C17(vlib.Spec):
     def compare(self, line, g, l):
         if l == "skip":
             return True
-        if line.startswith("snd."):
+        if line.startswith("snd.") or line.startswith("syn."):
             kv = dict(t.split("=", 1) for t in g.split() if "=" in t)
             return l == "left=%s failed=%s delivered=%s ret=%s" % (kv.get("left"), kv.get("failed"), kv.get("delivered"), kv.get("ret"))
         return g == l
